@@ -46,6 +46,17 @@ func (g *metaGenState) content() []byte {
 	if len(g.contents) > 0 && r.Chance(25) {
 		return g.contents[r.Intn(len(g.contents))] // identical content: drives dedup / shared parts
 	}
+	if r.Chance(6) { // compressible and >= 1 KiB: the compression middlewares really compress it
+		n := 1024 + r.Intn(300)
+		c := make([]byte, n)
+		p := 3 + r.Intn(9)
+		s := r.Intn(200)
+		for i := range c {
+			c[i] = byte('a' + (i%p+s)%26)
+		}
+		g.contents = append(g.contents, c)
+		return c
+	}
 	var n int
 	switch r.Intn(10) {
 	case 0:
@@ -435,7 +446,7 @@ func (p *metaProp) Gen(r *Rng, tier string, n int) []string {
 }
 
 func (p *metaProp) Run(in string, scratch string) Result {
-	stacks := []string{"fs", "sql", "zstd", "fs", "tink", "sql", "zstdtink", "zstdsql", "tinkzstd"}
+	stacks := []string{"fs", "sql", "zstd", "gzip", "tink", "ocache", "zstdtink", "zstdsql", "tinkzstd"}
 	stack := stacks[crc32.ChecksumIEEE([]byte(in))%uint32(len(stacks))]
 	m, err := metaNewRun(scratch, stack)
 	if err != nil {
